@@ -55,9 +55,9 @@ def Chg.NoProbeFirst : Chg → Prop
   | .one _ _ => True
   | .two c1 _ b1 _ => probing c1 b1 = false
 
-def specTrace : List Chg → List Str
+def specTrace (na : Bool) : List Chg → List Str
   | [] => []
-  | g :: gs => g.cmd :: (if g.valid then (if g.need then rearmLines else []) ++ specTrace gs else [])
+  | g :: gs => g.cmd :: (if g.valid then (if g.need then rearmLines na else []) ++ specTrace na gs else [])
 
 def specWarns : List Chg → List (Str × Str)
   | [] => []
@@ -77,22 +77,22 @@ theorem Chg.bad_none_of_valid (g : Chg) (h : g.valid = true) : g.bad = none := b
   | two c1 c2 b1 b2 => simp [Chg.bad, Chg.valid] at *; simp [h.1, h.2]
 
 /-- one element of the script -/
-theorem cmd_chg (g : Chg) (st : St SimSt) (q : List Behav) (hr : Ready st)
+theorem cmd_chg (na : Bool) (g : Chg) (st : St SimSt) (q : List Behav) (hr : Ready st)
     (hq : st.dev.queue = g.behavs ++ q) (hc : g.Clean) (hn : g.NoProbeFirst) :
-    let o := cmd (simDevice []) true g.cmd st
-    o.2.trace = st.trace ++ g.cmd :: (if g.valid && g.need then rearmLines else []) ∧
+    let o := cmd (simDevice [] na) true g.cmd st
+    o.2.trace = st.trace ++ g.cmd :: (if g.valid && g.need then rearmLines na else []) ∧
     o.2.warns = st.warns ++ g.warns ∧
     (g.valid = true → o.1 = .ok () ∧ Ready o.2 ∧ o.2.dev.queue = q) ∧
     (g.valid = false → ∃ ci R out, o.1 = .abort (.unexpectedOutput ci R) ∧ g.bad = some (ci, out) ∧
         neLines R = neLines out) := by
   cases g with
   | one c b =>
-    have h := cmd_one st c b q hr hq hc.cmds (hc.behavs b (by simp [Chg.behavs]))
+    have h := cmd_one na st c b q hr hq hc.cmds (hc.behavs b (by simp [Chg.behavs]))
     refine ⟨h.1, h.2.1, h.2.2.1, fun hv => ?_⟩
     obtain ⟨R, h1, h2⟩ := h.2.2.2 hv
     exact ⟨c, R, b.out, h1, by simp [Chg.bad, Chg.valid] at *; simp [hv], h2⟩
   | two c1 c2 b1 b2 =>
-    have h := cmd_two st c1 c2 b1 b2 q hr hq hc.cmds.1 hc.cmds.2
+    have h := cmd_two na st c1 c2 b1 b2 q hr hq hc.cmds.1 hc.cmds.2
       (hc.behavs b1 (by simp [Chg.behavs])) (hc.behavs b2 (by simp [Chg.behavs])) hn
     refine ⟨?_, ?_, ?_, ?_⟩
     · simpa [Chg.valid, Chg.need, Chg.cmd] using h.1
@@ -112,10 +112,10 @@ theorem cmd_chg (g : Chg) (st : St SimSt) (q : List Behav) (hr : Ready st)
         exact ⟨c2, R, b2.out, h1, by simp [Chg.bad, hv1, hv2], h2⟩
 
 /-- **the change loop against the scripted device** -/
-theorem loop_spec (gs : List Chg) (st : St SimSt) (q : List Behav) (hr : Ready st)
+theorem loop_spec (na : Bool) (gs : List Chg) (st : St SimSt) (q : List Behav) (hr : Ready st)
     (hq : st.dev.queue = gs.flatMap Chg.behavs ++ q) (hc : ∀ g ∈ gs, g.Clean ∧ g.NoProbeFirst) :
-    let o := changeLoop (simDevice []) true (gs.map Chg.cmd) st
-    o.2.trace = st.trace ++ specTrace gs ∧
+    let o := changeLoop (simDevice [] na) true (gs.map Chg.cmd) st
+    o.2.trace = st.trace ++ specTrace na gs ∧
     o.2.warns = st.warns ++ specWarns gs ∧
     (specOk gs = true → o.1 = .ok () ∧ Ready o.2 ∧ o.2.dev.queue = q) ∧
     (specOk gs = false → ∃ ci R out, o.1 = .abort (.unexpectedOutput ci R) ∧
@@ -129,14 +129,14 @@ theorem loop_spec (gs : List Chg) (st : St SimSt) (q : List Behav) (hr : Ready s
     have hg := hc g (by simp)
     have hq1 : st.dev.queue = g.behavs ++ (gs.flatMap Chg.behavs ++ q) := by
       rw [hq]; simp
-    have h1 := cmd_chg g st _ hr hq1 hg.1 hg.2
-    have ho : o = bindM (cmd (simDevice []) true g.cmd)
-        (fun _ => changeLoop (simDevice []) true (gs.map Chg.cmd)) st := rfl
+    have h1 := cmd_chg na g st _ hr hq1 hg.1 hg.2
+    have ho : o = bindM (cmd (simDevice [] na) true g.cmd)
+        (fun _ => changeLoop (simDevice [] na) true (gs.map Chg.cmd)) st := rfl
     cases hv : g.valid with
     | true =>
       obtain ⟨hok, hr1, hq2⟩ := h1.2.2.1 hv
       rw [bindM_snd_of_ok _ _ _ () hok] at ho
-      have h2 := ih (cmd (simDevice []) true g.cmd st).2 hr1 hq2 (fun x hx => hc x (by simp [hx]))
+      have h2 := ih (cmd (simDevice [] na) true g.cmd st).2 hr1 hq2 (fun x hx => hc x (by simp [hx]))
       rw [ho]
       refine ⟨?_, ?_, ?_, ?_⟩
       · rw [h2.1, h1.1]; simp [specTrace, hv]
@@ -243,10 +243,10 @@ theorem Chg.notRearm_cmd (g : Chg) (h : g.Clean) : notRearm g.cmd = true := by
   | one c b => exact notRearm_change c h.cmds
   | two c1 c2 b1 b2 => exact notRearm_joined c1 c2
 
-theorem filter_rearmLines : rearmLines.filter notRearm = [] := by decide
+theorem filter_rearmLines (na : Bool) : (rearmLines na).filter notRearm = [] := by cases na <;> decide
 
-theorem specTrace_plain (gs : List Chg) (hc : ∀ g ∈ gs, g.Clean) :
-    specTrace (gs.map Chg.plain) = (specTrace gs).filter notRearm := by
+theorem specTrace_plain (na : Bool) (gs : List Chg) (hc : ∀ g ∈ gs, g.Clean) :
+    specTrace na (gs.map Chg.plain) = (specTrace na gs).filter notRearm := by
   induction gs with
   | nil => rfl
   | cons g gs ih =>
@@ -263,7 +263,7 @@ theorem specTrace_plain (gs : List Chg) (hc : ∀ g ∈ gs, g.Clean) :
 
 theorem specTrace_append_ok (pre post : List Chg) (h : specOk pre = true) :
     specTrace (pre ++ post) =
-      (pre.flatMap fun g => g.cmd :: (if g.need then rearmLines else [])) ++ specTrace post := by
+      (pre.flatMap fun g => g.cmd :: (if g.need then rearmLines na else [])) ++ specTrace post := by
   induction pre with
   | nil => rfl
   | cons g pre ih =>
